@@ -352,7 +352,9 @@ theorem step_goodC (t : Tbl) (op : Op) (hg : GoodC t.info) (ha : Allowed t op) :
   | setAllUnits us => simpa [step, setAllUnits] using setUnits_goodC t.info t.frame _ hg ha
   | setColUnit n u =>
     by_cases hc : n ∈ t.frame.names
-    · simpa [step, setColUnit, hc] using setUnits_goodC t.info t.frame [(n, u)] hg ha
+    · by_cases hd : dupLabel t.frame n = true
+      · simpa [step, setColUnit, hc, hd] using hg
+      · simpa [step, setColUnit, hc, hd] using setUnits_goodC t.info t.frame [(n, u)] hg ha
     · simpa [step, setColUnit, hc] using hg
   | rewrap us st =>
     unfold step rewrap
